@@ -361,3 +361,29 @@ Theorem C09_parser_fuel_is_never_decisive :
                           end).
 Proof. exact (conj fuel_stable parse_json_path_any_fuel). Qed.
 Print Assumptions C09_parser_fuel_is_never_decisive.
+
+(* M6 (second review): the fuel the model passes is never what decides an answer, on ARBITRARY inputs -- also for the loops
+   whose exhaustion is an ordinary value (None, Ok None, Ok buf, PErr, the input itself), about which `<> Err EFuel` says
+   nothing: any fuel above the one the model passes gives the same answer (FuelIndep.v) *)
+From JB Require FuelIndep.
+Theorem C09_fuel_is_never_decisive :
+  (forall k bs, (length bs < k)%nat -> PathParse.json_path_fuel k bs = PathParse.json_path_fuel (S (length bs)) bs) /\
+  (forall k rp bs, (length bs < k)%nat -> PathParse.expr_or_fuel k rp bs = PathParse.expr_or_fuel (S (length bs)) rp bs) /\
+  (forall k bs, (length bs < k)%nat -> PathParse.path_fuel k bs = PathParse.path_fuel (S (length bs)) bs) /\
+  (forall A (f : list N -> PathParse.pres A), (forall bs, PathParseFuel.le_res (length bs) (f bs)) -> forall k bs acc, (length bs < k)%nat -> PathParse.many0 f k bs acc = PathParse.many0 f (S (length bs)) bs acc) /\
+  (forall A (f : list N -> PathParse.pres A), (forall bs, PathParseFuel.le_res (length bs) (f bs)) -> forall sep, (forall bs, PathParseFuel.le_res (length bs) (sep bs)) -> forall k bs acc, (length bs < k)%nat -> PathParse.sep_loop f sep k bs acc = PathParse.sep_loop f sep (S (length bs)) bs acc) /\
+  (forall m k bs acc, (length bs < k)%nat -> PathParse.many0 (PathParse.path_fuel m) k bs acc = PathParse.many0 (PathParse.path_fuel m) (S (length bs)) bs acc) /\
+  (forall k bs acc, (length bs < k)%nat -> PathParse.many0 (PathParse.ws_around PathParse.inner_path) k bs acc = PathParse.many0 (PathParse.ws_around PathParse.inner_path) (S (length bs)) bs acc) /\
+  (forall k bs acc, (length bs < k)%nat -> PathParse.sep_loop (PathParse.ws_around PathParse.parray_index) (PathParse.pchar 44) k bs acc = PathParse.sep_loop (PathParse.ws_around PathParse.parray_index) (PathParse.pchar 44) (S (length bs)) bs acc) /\
+  (forall stop k bs acc esc, (length bs < k)%nat -> PathParse.scan_name k stop bs acc esc = PathParse.scan_name (S (length bs)) stop bs acc esc) /\
+  (forall k n, (40 <= k)%nat -> n < two64 -> Num.digits_fuel k n [] = Num.dec_digits n).
+Proof. split; [exact FuelIndep.json_path_any_fuel|split; [exact FuelIndep.expr_or_any_fuel|split; [exact FuelIndep.path_any_fuel|split; [exact (@FuelIndep.many0_any_fuel)|split; [exact (@FuelIndep.sep_loop_any_fuel)|split; [exact FuelIndep.many0_steps_any_fuel|split; [exact FuelIndep.many0_inner_any_fuel|split; [exact FuelIndep.sep_indices_any_fuel|split; [exact FuelIndep.scan_name_any_fuel|exact FuelIndep.dec_digits_any_fuel_u64]]]]]]]]]. Qed.
+Print Assumptions C09_fuel_is_never_decisive.
+
+(* L2/L3 (second review), the DOMAIN of indices: the theorems about paths quantify over ASTs whose indices are arbitrary
+   integers (IIndex z, ILast z, z : Z) and hold for all of them; Index::Index / Index::LastIndex hold an i32 in the code, and
+   the parser only produces such indices, at every depth (filters, predicates, exists) *)
+From JB Require PathI32.
+Theorem C09_parsed_indices_are_i32 : forall bs ps, PathParse.parse_json_path bs = Ok ps -> PathI32.path_in_i32 ps.
+Proof. exact PathI32.parsed_json_path_indices_are_i32. Qed.
+Print Assumptions C09_parsed_indices_are_i32.
